@@ -436,3 +436,10 @@ def h1(ctx: Ctx) -> None:
     from .c02 import r2 as heap_rule
 
     heap_rule(ctx)
+
+
+@rule("C08.H2", "mechanism shared with C06: what a step recorded stays recorded: every series (prices, volumes, turnover, order counts) is written at the current slot only and grows by fresh slots appended to itself", "T7 index identity + prefix-preserving rebinding (same rule as C06.R5)", floor=20)
+def h2(ctx: Ctx) -> None:
+    from .c06 import r5 as series_rule
+
+    series_rule(ctx)
